@@ -50,6 +50,7 @@ type obj struct {
 
 // shardSpec: the endpoints a second cluster contributes to a service.
 type shardSpec struct {
+	cluster  string // cluster id of the shard ("" = c2)
 	host, ns string
 	eps      []*model.IstioEndpoint
 }
@@ -181,7 +182,7 @@ func (g *mgen) k8sObjects() {
 					ip := fmt.Sprintf("10.30.%d.%d", cip, p+1)
 					for _, sp := range ports {
 						sh.eps = append(sh.eps, &model.IstioEndpoint{
-							Addresses: []string{ip}, EndpointPort: uint32(sp.TargetPort.IntVal), ServicePortName: sp.Name,
+							Addresses: []string{ip}, EndpointPort: uint32(sp.TargetPort.IntVal), ServicePortName: sp.Name, HealthStatus: model.Healthy,
 							Labels:         map[string]string{"app": name, "version": g.pick([]string{"v1", "v2"}), "topology.istio.io/cluster": "c2"},
 							ServiceAccount: "spiffe://cluster.local/ns/" + ns + "/sa/default", Namespace: ns, WorkloadName: fmt.Sprintf("%s-c2-%d", name, p),
 							Locality: model.Locality{Label: g.pick([]string{"r2/z2", "r1/z1", "r2/z1"}), ClusterID: "c2"}, TLSMode: "istio",
@@ -1029,22 +1030,9 @@ func (g *mgen) extensions() {
 				}},
 			}}
 		}
-		if g.extProv && len(tl.Metrics) > 0 && g.r.Chance(2, 3) {
-			// a second Metrics entry for the OTHER prometheus provider with different overrides: the two stats filters differ,
-			// so their order in the HTTP / TCP filter chain is visible (telemetry.go walks the providers in sorted order)
-			other := "prom-b"
-			if len(tl.Metrics[0].Providers) > 0 && tl.Metrics[0].Providers[0].Name == "prom-b" {
-				other = "prometheus"
-			}
-			tl.Metrics[0].Providers = tl.Metrics[0].Providers[:1]
-			tl.Metrics = append(tl.Metrics, &telemetry.Metrics{
-				Providers: []*telemetry.ProviderRef{{Name: other}},
-				Overrides: []*telemetry.MetricsOverrides{{
-					Match:        &telemetry.MetricSelector{MetricMatch: &telemetry.MetricSelector_Metric{Metric: telemetry.MetricSelector_REQUEST_DURATION}},
-					TagOverrides: map[string]*telemetry.MetricsOverrides_TagOverride{"other1": {Value: "request.method"}, "other2": {Operation: telemetry.MetricsOverrides_TagOverride_REMOVE}},
-				}},
-			})
-		}
+		// (which providers are in scope is decided by the LAST Metrics entry on the way root namespace -> namespace ->
+		// workload; two providers with DIFFERENT filters arise when one Telemetry names both and one above it names one:
+		// the Telemetry objects land in random namespaces incl. the root namespace; witness `two-metrics-providers`)
 		if g.r.Chance(1, 2) {
 			tl.AccessLogging = []*telemetry.AccessLogging{{Providers: g.providerRefs("envoy", "envoy-b")}}
 		}
